@@ -7,6 +7,7 @@ working tree under ``root`` on every run.
 from __future__ import annotations
 
 import ast
+import json
 import builtins
 import os
 from dataclasses import dataclass, field
@@ -149,6 +150,18 @@ def norm(n: ast.AST, limit: int = 160) -> str:
     return s if len(s) <= limit else s[: limit - 3] + "..."
 
 
+def _load_known():
+    p = os.path.join(os.path.dirname(os.path.abspath(__file__)), "known_functions.json")
+    try:
+        d = json.load(open(p))
+        return set(d["functions"]), set(d["names"])
+    except Exception:
+        return None
+
+
+KNOWN = _load_known()
+
+
 class Program:
     """All analysed units plus symbol resolution."""
 
@@ -159,6 +172,7 @@ class Program:
         self.classes: Dict[str, ClassInfo] = {}
         self.func_of_node: Dict[int, FuncInfo] = {}
         self.unit_files: List[str] = []
+        self.normalised: Dict[str, List[str]] = {}
         self._load()
         self._link()
 
@@ -207,6 +221,11 @@ class Program:
                 tree = ast.parse(src, filename=path)
             except SyntaxError as e:
                 raise AnalysisError("unit does not parse: %s: %s" % (path, e))
+            if KNOWN is not None and not os.environ.get("VERIF_NO_NORMALISE"):
+                from .inline import normalise_module
+                tree, notes = normalise_module(tree, modname, KNOWN[0], KNOWN[1])
+                if notes:
+                    self.normalised.setdefault(modname, []).extend(notes)
             rel = os.path.relpath(path, self.root)
             m = ModuleInfo(modname, path, rel, tree, src, pkg)
             self.modules[modname] = m
